@@ -144,6 +144,7 @@ func (vm *VM) Processor_execute(psc *procbuilder.SimConfig, instruct <-chan int,
 		case 0:
 			resp <- procId
 		case 1:
+			verifYield(procId)
 			result, err := vm.Processors[procId].Step(psc)
 			resp <- procId
 			if err == nil {
